@@ -8,6 +8,8 @@ From PowHsm Require Import Proofs.C09.
 From PowHsm Require Import Gen.Src.
 From PowHsm Require Import Proofs.SrcEquivVersion.
 From PowHsm Require Import Proofs.SrcLiftC09.
+From PowHsm Require Import Gen.SrcM.
+From PowHsm Require Import Proofs.SrcEquivDongleM.
 Open Scope N_scope.
 
 (* version compatibility: same major, firmware minor.patch lexicographically not newer than the manager's *)
@@ -37,7 +39,7 @@ Proof. exact (@unlock_at_most_once). Qed.
 (* an unlock APDU is preceded, in order, by: connection, onboarded answer, bootloader mode answer, supported UI version, correct echo, and at least MIN_AVAILABLE_RETRIES retries *)
 Theorem C09_unlock_only_when_safe :
   forall (k : dongle_kind) (w : world) (n1 : list event) (u : event) (n2 : list event),
-         new_events w (snd (initialize_device k w)) = (n1 ++ u :: n2)%list ->
+         new_events w (snd (initialize_device k w)) = n1 ++ u :: n2 ->
          is_unlock k u = true -> InOrder (safe_pre k) n1.
 Proof. exact (@unlock_only_when_safe). Qed.
 
@@ -124,5 +126,38 @@ Theorem C09_source_supports_true_iff :
          src_HSM2FirmwareVersion__supports (ver_obj (M, m, p)) (ver_obj (M', m', p')) =
          POk (VBool true) <-> M' = M /\ (m' < m \/ m' = m /\ p' <= p).
 Proof. exact (@src_supports_true_iff). Qed.
+
+(* TIE BY TRANSLATION (device monad): the bring-up's device queries as regenerated from the source text run on every world as the model's: mode (unknown on a dongle error, not on an error result) *)
+Theorem C09_source_get_current_mode_is_model :
+  forall (self : pv) (w : world),
+         srcm_HSM2Dongle__get_current_mode self w = mres vN (get_current_mode w).
+Proof. exact (@srcm_get_current_mode_ok). Qed.
+
+(* onboarded flag *)
+Theorem C09_source_is_onboarded_is_model :
+  forall (self : pv) (w : world),
+         srcm_HSM2Dongle__is_onboarded self w = mres VBool (is_onboarded w).
+Proof. exact (@srcm_is_onboarded_ok). Qed.
+
+(* echo *)
+Theorem C09_source_echo_is_model :
+  forall (self : pv) (w : world), srcm_HSM2Dongle__echo self w = mres VBool (echo KLedger w).
+Proof. exact (@srcm_echo_ok). Qed.
+
+(* firmware version triple *)
+Theorem C09_source_get_version_is_model :
+  forall (self : pv) (w : world),
+         srcm_HSM2Dongle__get_version self w =
+         mres
+           (fun '(a, b, c) =>
+            VObj "HSM2FirmwareVersion" [("patch", vN c); ("minor", vN b); ("major", vN a)])
+           (get_version w).
+Proof. exact (@srcm_get_version_ok). Qed.
+
+(* PIN retries *)
+Theorem C09_source_get_retries_is_model :
+  forall (self : pv) (w : world),
+         srcm_HSM2Dongle__get_retries self w = mres vN (get_retries KLedger w).
+Proof. exact (@srcm_get_retries_ok). Qed.
 
 Example C09_nonvacuous : True. Proof. exact I. Qed. (* concrete bring-ups closed by vm_compute in Proofs/C09.v: Ledger bootloader reaching unlock and serving, retries = 1 stopping with no unlock APDU, SGX, signer 5.4.2 refused, PIN change stopping *)
